@@ -48,6 +48,10 @@ func (ex *Exec) execInstr(fr *Frame, st *State, ins ssa.Instruction) {
 		}
 		// heap-allocated
 		r := ex.freshObject(st, x.Comment)
+		if ex.ownAllocType == nil {
+			ex.ownAllocType = map[*Term]types.Type{}
+		}
+		ex.ownAllocType[r] = el
 		ex.store(st, TV{r}, el, TV{ex.tm.ZeroOf(el)})
 		if su, isStruct := types.Unalias(el).Underlying().(*types.Struct); isStruct {
 			if _, isT := ex.tm.isTargetStruct(el); !isT && su.NumFields() <= 32 {
@@ -122,6 +126,7 @@ func (ex *Exec) execInstr(fr *Frame, st *State, ins ssa.Instruction) {
 		l := ex.term(ex.operand(fr, st, x.Len), SInt, "make len")
 		c := ex.term(ex.operand(fr, st, x.Cap), SInt, "make cap")
 		r := ex.freshObject(st, "slice")
+		ex.arrIs(r, x.Type().Underlying().(*types.Slice).Elem())
 		es := ex.tm.SortOf(x.Type().Underlying().(*types.Slice).Elem())
 		key := ElemKey(es)
 		arr := ex.heapGet(st, key, SArray(SInt, SArray(SInt, es)))
@@ -267,7 +272,9 @@ func sortOrInt(tm *TypeMap, t types.Type) *Sort {
 }
 
 func (ex *Exec) checkNil(fr *Frame, st *State, v Value, pos token.Pos, what string) {
-	if !ex.full || ex.contract == nil || !ex.contract.Safety["nil"] || !fr.top {
+	// (also inside inlined callees: a nil dereference there crashes the
+	// function under contract just the same)
+	if !ex.full || ex.contract == nil || !ex.contract.Safety["nil"] {
 		return
 	}
 	if tv, ok := v.(TV); ok && tv.T.Sort == SInt {
@@ -606,6 +613,7 @@ func (ex *Exec) indexAddr(fr *Frame, st *State, x *ssa.IndexAddr) Value {
 		}
 		es := ex.tm.SortOf(t.Elem())
 		arr := ts.SelectField(ex.tm.slice, 0, sv.T)
+		ex.arrIs(arr, t.Elem())
 		off := ts.SelectField(ex.tm.slice, 1, sv.T)
 		return Loc{Key: ElemKey(es), Idx: arr, Sort: SArray(SInt, es), Path: []PathStep{{Index: ts.Add(off, idx)}}}
 	case *types.Pointer: // pointer to array
